@@ -1036,8 +1036,6 @@ func (vr *voterecords) copyVoted(suf base.Suffrage) map[string]base.BallotSignFa
 
 			voted[signfact.Node().String()] = signfact
 		}
-
-		clear(vr.ballots)
 	}
 
 	return voted
